@@ -257,9 +257,15 @@ func AndInstr(ps ...InstrPred) InstrPred {
 func (p *Program) EdgeSuccs(f *ssa.Function, globs ...string) []Loc {
 	var out []Loc
 
-	if f == nil {
+	if f == nil || len(f.Blocks) == 0 {
 		return nil
 	}
+
+	// edges whose fact only shows once joined values are resolved on the path (`if ok` where ok is a
+	// helper's `a || b` result): found by a search from the entry that stops at them
+	type ek struct{ b, pred *ssa.BasicBlock }
+
+	static := map[ek]bool{}
 
 	for _, b := range f.Blocks {
 		if len(b.Instrs) == 0 {
@@ -275,11 +281,28 @@ func (p *Program) EdgeSuccs(f *ssa.Function, globs ...string) []Loc {
 			for _, fact := range p.Facts(ifi.Cond, k == 0) {
 				if GlobAny(globs, fact) {
 					known, _ := trackEq("", fact)
-					out = append(out, Loc{B: succ, Known: known})
+					out = append(out, Loc{B: succ, Known: known, Pred: b})
+					static[ek{succ, b}] = true
 				}
 			}
 		}
 	}
+
+	func() {
+		seen := map[string]bool{}
+
+		p.Reach(Entry(f), func(ssa.Instruction) bool { return false }, CutSpec{Edges: FactEdge(globs...), Collect: func(l Loc) {
+			if static[ek{l.B, l.Pred}] {
+				return
+			}
+
+			k := fmt.Sprintf("%p|%p|%s", l.B, l.Pred, l.env.key)
+			if !seen[k] {
+				seen[k] = true
+				out = append(out, l)
+			}
+		}})
+	}()
 
 	return out
 }
@@ -634,4 +657,15 @@ func (p *Program) BodyWith(f *ssa.Function, pred InstrPred) *ssa.Function {
 	}
 
 	return search(f, 1)
+}
+
+// AnyFact reports whether one of the facts carried by the edge satisfies pred.
+func AnyFact(e EdgeInfo, pred func(string) bool) bool {
+	for _, f := range e.Facts {
+		if pred(f) {
+			return true
+		}
+	}
+
+	return false
 }
